@@ -32,7 +32,7 @@ def run(pid):
     consts = seqeng.kv_consts(3, ["put", "rem", "flush"], blen, nv=3)
     hs, r = seqeng.gen_histories(consts, "bfs", timeout=1500)
     rep.add_model(r)
-    base_keys = [[1, 7, 7, 0, 9, 0, 3, 3], [1, 7, 7, 0, 9, 0, 3, 4], [2, 5, 5, 5, 5, 5, 5, 5]]
+    base_keys = [[1, 7, 7, 0, 9, 0, 3, 3], [1, 7, 7, 0, 9, 0, 3, 4], [2, 7, 7, 0, 9, 0, 3, 3]]
     vals3 = ["empty", "a1", "b5"]
     cfgs = [dict(primary="mh", bits=8, il=30, pl=30, imm=False, keys=base_keys, vals=vals3, probe="all"),
             dict(primary="mh", bits=9, il=1 << 30, pl=1 << 30, imm=False, keys=base_keys, vals=vals3, probe="end"),
@@ -50,7 +50,7 @@ def run(pid):
     nsim, depth = (20000, 60) if thorough else (1500, 40)
     w = ["put"] * 5 + ["rem"] * 2 + ["flush"] * 2 + ["get", "has", "size", "iter"]
     for imm in (False, True):
-        consts = seqeng.kv_consts(5, w, depth, imm=imm)
+        consts = seqeng.kv_consts(6, w, depth, imm=imm)
         k = nsim if not imm else nsim // 4
         hs2, r2 = seqeng.gen_histories(consts, "sim", num=k, seed=vlib.seed() * 2 + int(imm))
         rep.cov["transitions"] += r2.states
